@@ -96,6 +96,10 @@ func zzNewGenesis(nholders, nvals int, gov *ctrlertypes.GovParams) *zzGenesis {
 // value and sorting does not fork); still symbolic inside each band.
 func zzNewGenesisBanded(nholders, nvals int, gov *ctrlertypes.GovParams) *zzGenesis {
 	g := zzNewGenesis(nholders, 0, gov)
+	// ample balances (>= 2^80): fees of the prelude never decide an outcome
+	for i := range g.balances {
+		g.balances[i] = new(uint256.Int).Add(g.balances[i], new(uint256.Int).Lsh(uint256.NewInt(1), 80))
+	}
 	for i := 0; i < nvals; i++ {
 		lo := int64(nvals-i) << 40
 		g.powers = append(g.powers, zzverif.NondetI64In("genesis.power", lo, lo+(1<<20)))
@@ -189,8 +193,14 @@ func (n *zzNode) toAddr(i int) types.Address {
 }
 
 // encode builds and signs the transaction and returns its wire bytes.
-func (n *zzNode) encode(t *zzTx) []byte {
-	tx := &ctrlertypes.Trx{Version: 1, Time: 1, Nonce: t.nonce, From: zzAddr(t.from), To: n.toAddr(t.to), Amount: t.amount,
+func (n *zzNode) encode(t *zzTx) []byte { return n.encodeTo(t, nil) }
+
+// encodeTo is encode with an explicit receiver address (contract addresses).
+func (n *zzNode) encodeTo(t *zzTx, to types.Address) []byte {
+	if to == nil || (t.typ == ctrlertypes.TRX_CONTRACT && t.to == -1) {
+		to = n.toAddr(t.to)
+	}
+	tx := &ctrlertypes.Trx{Version: 1, Time: 1, Nonce: t.nonce, From: zzAddr(t.from), To: to, Amount: t.amount,
 		Gas: t.gas, GasPrice: t.gasPrice, Type: t.typ, Payload: t.payload}
 	chain := t.chain
 	if chain == "" {
